@@ -583,10 +583,24 @@ def blowout_predicates(ctx, c, worst):
     scale = float(np.sum(mflux))
     key_suffix = ''
     absent = [ph for ph, k, nb in (('gas', 0, nG), ('liquid', 1, nL)) if np.sum(m[k, :]) == 0. and nb > 0]
-    if absent:
-        # user-supplied bins for a phase the release flash finds absent: m_dot = 0 in initial_conditions -> 0/0
-        key_suffix = '-user-bins-absent-phase'
-        rep['absent_phase_with_bins'] = absent
+    if absent and c['mode'] == 'user':
+        # user-supplied bins for a phase the release flash finds absent: m_dot = 0 in initial_conditions -> 0/0.
+        # The specific key is used ONLY if the NaNs sit exactly in those bins and the bins of the phase that is
+        # present carry the whole released flux.
+        sl_abs = np.zeros(nG + nL, dtype=bool)
+        if 'gas' in absent:
+            sl_abs[:nG] = True
+        if 'liquid' in absent:
+            sl_abs[nG:] = True
+        rest = (nb0[~sl_abs, None] * m0[~sl_abs]).sum(axis=0)
+        if (np.all(np.isnan(nb0[sl_abs])) and np.all(np.isfinite(rest))
+                and float(np.max(np.abs(rest - mflux))) / scale <= TOL_FLASH):
+            key_suffix = '-user-bins-absent-phase'
+            rep['absent_phase_with_bins'] = absent
+        else:
+            absent = []
+    else:
+        absent = []
     e = float(np.max(np.abs(tot - mflux))) / scale
     if math.isfinite(e):
         worst['blowout'] = max(worst['blowout'], e)
